@@ -142,7 +142,12 @@ class DetachedServer(ServerBase):
 
             elif msg == RuntimeMessage.CANCEL:
                 request = cast(uuid.UUID, payload)
-                self.handle_cancel_comp_task(request)
+                if request in self.clients[conn] and request in self.tasks:
+                    self.handle_cancel_comp_task(request)
+                else:
+                    # Nothing of this client's to cancel (unknown, fetched,
+                    # already cancelled, or another client's task).
+                    self.outgoing.put((conn, RuntimeMessage.CANCEL, None))
 
             else:
                 raise RuntimeError(f'Unexpected message type: {msg.name}')
